@@ -1860,7 +1860,8 @@ fn generate_literal(
         ir::Constant::FloatLiteral(v) => ast::Literal::FloatUntyped(v),
         ir::Constant::Float16(v) => ast::Literal::Float16(v),
         ir::Constant::Float32(v) => ast::Literal::Float32(v),
-        ir::Constant::Float64(v) => ast::Literal::Float64(v),
+        // Metal has neither double nor long double so there is no literal form to emit
+        ir::Constant::Float64(_) => return Err(GenerateError::UnsupportedDouble),
         ir::Constant::String(_) => panic!("literal string not expected in output"),
         ir::Constant::Enum(id, ref c) => {
             // Try to find an enum value which matches the constant
